@@ -90,7 +90,7 @@ CHECKS = {
 }
 
 # checks integrated, reviewed and silent on the unchanged tree (others are still being built)
-READY = "C01 C03 C04 C05 C06 C08 C09 C10 C11 C12 C14 C15 C16 C17 C18 C19 C20".split()
+READY = "C01 C02 C03 C04 C05 C06 C07 C08 C09 C10 C11 C12 C13 C14 C15 C16 C17 C18 C19 C20".split()
 
 ENGINES = [
     {"name": "E-SCHED", "path": "vf/vloop.py, vf/explorer.py, vf/sched.py, vf/determinism.py, vf/seams.py, vf/seams_http.py",
